@@ -204,6 +204,10 @@ func (f *Frame) call(c *ssa.CallCommon, pos token.Pos, v ssa.Value) []Val {
 		}
 		return f.applyContract(ct, fn, args, c, pos)
 	}
+	if isEffectFree(name) {
+		vc.trust("call without heap effect: " + name)
+		return f.freshResults(c, fn.Name())
+	}
 	if f.p.isReceptorFunc(fn) {
 		// anonymous function called directly
 		if fn.Parent() != nil && fn.Blocks != nil && f.depth < 4 && len(fn.FreeVars) == 0 {
@@ -302,17 +306,26 @@ func (f *Frame) havocReachable(args []ssa.Value) {
 	}
 }
 
+func isActivationLocal(k string) bool {
+	for _, p := range []string{"Held_", "Defer_", "Visited_", "Ghost_", "Own_", "Spawn_", "SpawnArg_", "Base_"} {
+		if strings.HasPrefix(k, p) {
+			return true
+		}
+	}
+	return false
+}
+
 func (f *Frame) havocAllExceptLocals() {
 	// keep Held (locks are only changed by lock operations in receptor code), defer flags and visited sets
 	keep := map[string]string{}
 	for k, v := range f.cur.comp {
-		if strings.HasPrefix(k, "Held_") || strings.HasPrefix(k, "Defer_") || strings.HasPrefix(k, "Visited_") || strings.HasPrefix(k, "Ghost_") {
+		if isActivationLocal(k) {
 			keep[k] = v
 		}
 	}
 	var keepDefault []string
 	for k := range f.vc.comps {
-		if strings.HasPrefix(k, "Held_") || strings.HasPrefix(k, "Defer_") || strings.HasPrefix(k, "Visited_") || strings.HasPrefix(k, "Ghost_") {
+		if isActivationLocal(k) {
 			if _, ok := keep[k]; !ok {
 				keepDefault = append(keepDefault, k)
 			}
@@ -441,6 +454,9 @@ func (f *Frame) applyContract(ct *FuncContract, fn *ssa.Function, args []Val, c 
 		env.results = append(env.results, Bound{V: r, T: rt})
 	}
 	for _, en := range ct.Ensures {
+		if mentionsActivationLocal(en.Expr) {
+			continue // speaks about the callee's own activation (its sends, its lock acquisitions): not usable by callers
+		}
 		t, err := env.evalBool(en.Expr)
 		if err != nil {
 			vc.unbound = append(vc.unbound, fmt.Sprintf("%s: call %s ensures %s: %v", f.key, callee, en.Label, err))
@@ -449,6 +465,24 @@ func (f *Frame) applyContract(ct *FuncContract, fn *ssa.Function, args []Val, c 
 		vc.assumeG(f.guard, t)
 	}
 	return res
+}
+
+func mentionsActivationLocal(e *Expr) bool {
+	if e == nil {
+		return false
+	}
+	if e.Op == "call" {
+		switch e.Name {
+		case "acqof", "acq", "ownsends", "ownsendchan", "ownsendval", "ownsent", "ownspawns", "ownspawnarg":
+			return true
+		}
+	}
+	for _, a := range e.Args {
+		if mentionsActivationLocal(a) {
+			return true
+		}
+	}
+	return false
 }
 
 // havocItem havocs one item of a modifies clause in the current state.
@@ -775,6 +809,9 @@ func (f *Frame) callWrites(c *ssa.CallCommon) ([]string, bool) {
 		if mc, ok := c.Value.(*ssa.MakeClosure); ok {
 			fn = mc.Fn.(*ssa.Function)
 		} else {
+			if ct := f.p.funcTypeContract(c.Value.Type()); ct != nil && ct.Pure {
+				return nil, false
+			}
 			return nil, true
 		}
 	}
@@ -798,7 +835,7 @@ func (f *Frame) callWrites(c *ssa.CallCommon) ([]string, bool) {
 	if _, ok := libSpecial[name]; ok {
 		return libSpecialWrites(f, name, c)
 	}
-	if !f.p.isReceptorFunc(fn) && isEffectFree(name) {
+	if isEffectFree(name) {
 		return []string{"next"}, false
 	}
 	return nil, true
